@@ -1,6 +1,18 @@
 #!/usr/bin/env python3
-"""Prints a markdown table of the seeded changes under /verif/seeded and what the checks said."""
+"""Prints seeded/README.md: a markdown table of the seeded changes under /verif/seeded and what the checks said."""
 import json, glob, os
+
+def verdict_of(cr):
+    if not cr:
+        return 'not run'
+    lines = cr.get('lines', [])
+    if cr.get('exit') == 1:
+        v = [l for l in lines if l.startswith('VIOLATION')]
+        return 'no-failing-input-found' if v and all('no-failing-input-found' in l for l in v) else 'failing input'
+    if cr.get('exit') == 0:
+        return 'missed (exit 0)'
+    return 'not run (exit %s)' % cr.get('exit')
+
 rows = []
 for d in sorted(glob.glob('/verif/seeded/*/')):
     try:
@@ -8,19 +20,38 @@ for d in sorted(glob.glob('/verif/seeded/*/')):
     except Exception:
         continue
     name = os.path.basename(d.rstrip('/'))
-    cr = m.get('check_result', {})
-    lines = cr.get('lines', [])
-    verdict = 'missed (exit 0)'
-    if cr.get('exit') == 1:
-        verdict = 'caught: no-failing-input-found' if any('no-failing-input-found' in l for l in lines) else 'caught with a failing input'
-    elif cr.get('exit') not in (0, 1):
-        verdict = 'not run (exit %s)' % cr.get('exit')
-    summ = (m.get('summary') or '')
-    if isinstance(summ, dict): summ = json.dumps(summ)
-    summ = ' '.join(str(summ).split())[:230]
-    needs = ' '.join(str(m.get('needs', '')).split())[:200]
-    rows.append((name, m.get('property', ''), summ, needs, verdict, m.get('strengthened', '')))
-print('| Seeded change | What was changed | Needs, to manifest | Check verdict | Note |')
-print('|---|---|---|---|---|')
+    now = verdict_of(m.get('check_result'))
+    by = m.get('property', '')
+    if m.get('caught_by'):
+        other = verdict_of(m.get('check_result_' + m['caught_by']))
+        if other != 'not run':
+            now, by = other, m['caught_by']
+    st = (m.get('strengthened') or '').lower()
+    if st.startswith('missed at first') or 'missed at first' in st[:60]:
+        first = 'missed (exit 0)'
+    elif 'no-failing-input-found at first' in st:
+        first = 'no-failing-input-found'
+    elif m.get('first_check_result'):
+        first = verdict_of(m.get('first_check_result'))
+    else:
+        first = now
+    summ = m.get('summary') or ''
+    if isinstance(summ, dict):
+        summ = json.dumps(summ)
+    summ = ' '.join(str(summ).split())[:300]
+    needs = ' '.join(str(m.get('needs', '')).split())[:220]
+    note = m.get('strengthened', '') or ''
+    if m.get('rebased'):
+        note = (note + ' ' if note else '') + '(patch re-based onto the current tree)'
+    rows.append((name, summ, needs, by, now, first, note))
+
+print(open('/verif/seeded/README.head.md').read() if os.path.exists('/verif/seeded/README.head.md') else '# Seeded changes\n')
+n = len(rows)
+caught = sum(1 for r in rows if r[4] in ('failing input', 'no-failing-input-found'))
+nofail = sum(1 for r in rows if r[4] == 'no-failing-input-found')
+firstc = sum(1 for r in rows if r[5] in ('failing input', 'no-failing-input-found'))
+print('%d seeded changes; reported by the quick tier now: %d (%d of them as no-failing-input-found); reported on first contact: %d.\n' % (n, caught, nofail, firstc))
+print('| Seeded change | What was changed (abridged) | Needs, to manifest (abridged) | Caught by | Verdict now | First contact | Needed strengthening |')
+print('|---|---|---|---|---|---|---|')
 for r in rows:
-    print('| %s | %s | %s | %s | %s |' % (r[0], r[2].replace('|', '/'), r[3].replace('|', '/'), r[4], r[5]))
+    print('| %s | %s | %s | %s | %s | %s | %s |' % (r[0], r[1].replace('|', '/'), r[2].replace('|', '/'), r[3], r[4], r[5], r[6].replace('|', '/')))
